@@ -4,6 +4,7 @@ package ctlog
 
 import (
 	"fmt"
+	"os"
 	"strings"
 	"testing"
 
@@ -17,16 +18,23 @@ import (
 func TestVerifC01History(t *testing.T) {
 	rec := vfstat.New("C01History")
 	defer rec.Flush()
-	thorough := vfstat.Thorough()
 	rapid.Check(t, func(t *rapid.T) {
 		dir, cleanup := simTempDir()
 		defer cleanup()
 		s := newSimSys(t, dir)
-		realStores := simWantReal(rapid.IntRange(0, 9).Draw(t, "realStores"))
+		big := (os.Getenv("VERIF_TIER") == "thorough" || os.Getenv("VERIF_BIG") != "") && rapid.IntRange(0, 59).Draw(t, "bigBase") <= simEnvInt("VERIF_BIG", 0)
+		bigNext := 0
+		if big {
+			var base *simSys
+			base, bigNext = simBigBase(t)
+			s = base.clone(dir)
+			s.activate()
+		}
+		realStores := !big && simWantReal(rapid.IntRange(0, 9).Draw(t, "realStores"))
 		if realStores {
 			defer simAttachRealStores(s, dir)()
 		}
-		h := &simHist{s: s, opts: simHistOpts{MaxRounds: 8, ClockFaults: true, Faults: true, Thorough: thorough}}
+		h := &simHist{s: s, opts: simHistOpts{MaxRounds: 8, ClockFaults: true, Faults: true, Existing: big}, nextID: bigNext}
 		err := h.run(t)
 		if err == nil {
 			err = h.finish()
@@ -52,6 +60,7 @@ func TestVerifC01History(t *testing.T) {
 			}
 		}
 		add(realStores, "real-LocalBackend+SQLite")
+		add(big, "crosses-65536")
 		add(st.FaultsFired > 0, "fault-fired")
 		add(st.Crashes > 0, "crash")
 		add(st.ClockAnoms > 0, "clock-anomaly")
